@@ -714,11 +714,16 @@ func genCase(rt *rapid.T) Case {
 	for i, n := 0, pick(7, "nbreaks"); i < n; i++ {
 		c.Breaks = append(c.Breaks, pick(200, "bl"))
 	}
-	if pick(4, "dis") == 0 {
-		c.Disabled = append(c.Disabled, pick(8, "disi"))
+	// (several, also the same break point more than once: a repeated command must change nothing)
+	if pick(3, "dis") == 0 {
+		for i, n := 0, 1+pick(3, "ndis"); i < n; i++ {
+			c.Disabled = append(c.Disabled, pick(3, "disi"))
+		}
 	}
 	if pick(4, "rem") == 0 {
-		c.Removed = append(c.Removed, pick(8, "remi"))
+		for i, n := 0, 1+pick(2, "nrem"); i < n; i++ {
+			c.Removed = append(c.Removed, pick(8, "remi"))
+		}
 	}
 	if pick(2, "resumeonly") == 0 {
 		c.Cmds = []string{"resume"}
